@@ -92,3 +92,30 @@ package message
 //@   ensures  isV2 ==> res == rw.sizeExtended
 //@   ensures  !isV2 ==> res == rw.sizeNormal
 //@   modifies nothing
+
+// ---------------------------------------------------------------- Initialize: sizes, limits, refusals (C17, C03)
+// T is the struct type behind rw.Message, read through the reflect model (uninterpreted type descriptors shared by
+// code and specification).  specPayloadBytes sums, over the struct's fields, the wire bytes the MAVLink rules give
+// each field from its Go type and tags alone.
+
+//@ func (*ReadWriter).Initialize
+//@   ghostlog message.msgGoToDef, message.fieldGoToDef, (*message.ReadWriter).Initialize$3
+//@   option merge-scalar-branches
+//@   let TT = reflect.TypeOf(rw.Message).Elem()
+//@   requires rw != nil && rw.Message != nil
+//@   ensures  [payload-limit] err == nil ==> specPayloadBytes(TT, TT.NumField(), true) <= 255
+//@   ensures  [sizes-are-the-spec-sizes] err == nil ==> int(rw.sizeExtended) == specPayloadBytes(TT, TT.NumField(), true) &&
+//@              int(rw.sizeNormal) == specPayloadBytes(TT, TT.NumField(), false)
+//@   ensures  [every-field-is-a-legal-mavlink-field] err == nil ==> (forall j int :: 0 <= j && j < TT.NumField() ==> specFieldAccepted(TT, j))
+//@   ensures  [one-descriptor-per-field] err == nil ==> len(rw.fields) == TT.NumField()
+//@   canary   err == nil
+//@   canary   err != nil
+//@   modifies *rw, ghost:log
+//@   loop 0 bind i int
+//@   loop 0 bind sizeNormal int
+//@   loop 0 bind sizeExtended int
+//@   loop 0 invariant 0 <= i && i <= TT.NumField() && len(rw.fields) == TT.NumField()
+//@   loop 0 invariant sizeExtended == specPayloadBytes(TT, i, true) && sizeNormal == specPayloadBytes(TT, i, false)
+//@   loop 0 invariant 0 <= sizeNormal && sizeNormal <= sizeExtended && sizeExtended <= i*2040
+//@   loop 0 invariant forall j int :: 0 <= j && j < i ==> specFieldAccepted(TT, j)
+//@   loop 0 modifies rw.fields[:]
